@@ -315,4 +315,140 @@ theorem update_exprs_match' (fl : Rat → Rat) :
   · intro st a r mv sv hm hs hsv
     simp [Ucb.learn, hm, hs, hsv, Ex.evalF, ucbMeanExpr]
 
+/-! ### Phase 6: the converse — feedback the predicate REJECTS makes `learn` raise (AssertionError / ZeroDivisionError), so under the
+invariants `learn` succeeds exactly for accepted feedback -/
+
+/-- what Python raises for rejected feedback: the inner Corral's `assert`, or `/ probability` -/
+def RejectErr (e : PErr) : Prop := e = .assertion ∨ e = .zeroDivision
+
+theorem learnAll_err_kind {B : Base} (h : B.Laws) (acc : B.σ → Act → Rat → Rat → Bool)
+    (hacc : ∀ s a r p, h.accepts s a r p ↔ acc s a r p = true)
+    (hrej : ∀ s a r p, h.inv s → h.ready s → acc s a r p = false → ∃ e, B.learn s a r p = .error e ∧ RejectErr e) :
+    ∀ (ss : List B.σ) (fs : List (Act × Rat × Rat)), (∀ s ∈ ss, h.inv s) → (∀ s ∈ ss, h.ready s) →
+      allAcceptB acc ss fs = false → ∃ e, learnAll B ss fs = .error e ∧ RejectErr e := by
+  intro ss
+  induction ss with
+  | nil => intro fs _ _ hf; simp [allAcceptB] at hf
+  | cons s ss ih =>
+    intro fs hinv hready hf
+    cases fs with
+    | nil => simp [allAcceptB] at hf
+    | cons f fs =>
+      obtain ⟨a, r, p⟩ := f
+      simp only [allAcceptB, Bool.and_eq_false_iff] at hf
+      cases hb : acc s a r p with
+      | false =>
+        obtain ⟨e, he, hk⟩ := hrej s a r p (hinv s (by simp)) (hready s (by simp)) hb
+        exact ⟨e, by simp [learnAll, he], hk⟩
+      | true =>
+        obtain ⟨s', hl, _⟩ := h.learn_ok s a r p (hinv s (by simp)) (hready s (by simp)) ((hacc s a r p).mpr hb)
+        rcases hf with hf | hf
+        · rw [hb] at hf; cases hf
+        · obtain ⟨e, he, hk⟩ := ih fs (fun t ht => hinv t (by simp [ht])) (fun t ht => hready t (by simp [ht])) hf
+          exact ⟨e, by simp [learnAll, hl, he], hk⟩
+
+theorem rejected_learn_raises_kind' (fl : Rat → Rat) : ∀ (n : Nat) (s : (tower fl n).σ) (a : Act) (r p : Rat),
+    (towerLaws fl n).inv s → (towerLaws fl n).ready s →
+    acceptsB fl n s a r p = false → ∃ e, (tower fl n).learn s a r p = .error e ∧ RejectErr e := by
+  intro n
+  induction n with
+  | zero => intro s a r p _ _ h; simp [acceptsB] at h
+  | succ n ih =>
+    intro s a r p hinv hready h
+    cases s with
+    | inl s => simp [acceptsB] at h
+    | inr s =>
+      simp only [acceptsB, Bool.and_eq_false_iff, decide_eq_false_iff_not, Bool.not_eq_false', decide_eq_true_eq] at h
+      obtain ⟨_, _, hb⟩ : (corralLaws fl (towerLaws fl n)).inv s := hinv
+      obtain ⟨_, hrb⟩ : (corralLaws fl (towerLaws fl n)).ready s := hready
+      have hc : ∃ e, (corralOver fl (tower fl n)).learn s a r p = .error e ∧ RejectErr e := by
+        by_cases h0 : 0 ≤ misguide fl s.mis r
+        · by_cases h1 : misguide fl s.mis r ≤ 1
+          · by_cases hp : p = 0
+            · exact ⟨.zeroDivision, by simp [corralOver, h0, h1, hp], Or.inr rfl⟩
+            · have hall : allAcceptB (acceptsB fl n) s.bases (corralFeedback s.c.importance s.lastActs s.lastProbs a (misguide fl s.mis r) p) = false := by
+                rcases h with ((h | h) | h) | h
+                · exact absurd h0 h
+                · exact absurd h1 h
+                · exact absurd h hp
+                · exact h
+              obtain ⟨e, he, hk⟩ := learnAll_err_kind (towerLaws fl n) (acceptsB fl n) (accepts_iff_acceptsB' fl n) ih s.bases _ hb hrb hall
+              exact ⟨e, by simp [corralOver, h0, h1, hp, he], hk⟩
+          · exact ⟨.assertion, by simp [corralOver, h0, h1], Or.inl rfl⟩
+        · exact ⟨.assertion, by simp [corralOver, h0], Or.inl rfl⟩
+      obtain ⟨e, he, hk⟩ := hc
+      refine ⟨e, ?_, hk⟩
+      show (sumBase (leafBase fl) (corralOver fl (tower fl n))).learn (Sum.inr s) a r p = .error e
+      simp [sumBase, he]
+
+/-- under the invariants `learn` succeeds exactly for accepted feedback -/
+theorem tower_learn_ok_iff' (fl : Rat → Rat) (n : Nat) (s : (tower fl n).σ) (a : Act) (r p : Rat)
+    (hinv : (towerLaws fl n).inv s) (hready : (towerLaws fl n).ready s) :
+    (∃ s', (tower fl n).learn s a r p = .ok s') ↔ acceptsB fl n s a r p = true := by
+  constructor
+  · rintro ⟨s', hs'⟩
+    cases hb : acceptsB fl n s a r p with
+    | true => rfl
+    | false =>
+      obtain ⟨e, he, _⟩ := rejected_learn_raises_kind' fl n s a r p hinv hready hb
+      rw [hs'] at he; cases he
+  · intro h
+    obtain ⟨s', hs', _⟩ := (towerLaws fl n).learn_ok s a r p hinv hready ((accepts_iff_acceptsB' fl n s a r p).mpr h)
+    exact ⟨s', hs'⟩
+
+/-- witness for the non-vacuity `example` beside `rejected_feedback_raises`: an importance Corral over an importance Corral over a RandomLearner,
+all having predicted; reward 1 at probability 1/2 reaches the inner Corral as 2 -/
+def rejLeaf : Leaf := { L := { kind := .random, rng := 0 }, val := fun _ _ => 0 }
+def rejInner : (tower (fun x => x) 1).σ := Sum.inr { c := accCorral true [1], lastActs := [0], lastProbs := [1], bases := [rejLeaf] }
+def rejTop : (tower (fun x => x) 2).σ := Sum.inr { c := accCorral true [1], lastActs := [0], lastProbs := [1], bases := [rejInner] }
+
+theorem accCorral_inv : (accCorral true [1]).Inv := by
+  constructor <;> simp [accCorral]
+
+theorem rejTop_ok : (towerLaws (fun x => x) 2).inv rejTop ∧ (towerLaws (fun x => x) 2).ready rejTop ∧
+    acceptsB (fun x => x) 2 rejTop 0 1 (1 / 2) = false := by
+  refine ⟨?_, ?_, by decide +kernel⟩
+  · show (corralLaws (fun x => x) (towerLaws (fun x => x) 1)).inv { c := accCorral true [1], lastActs := [0], lastProbs := [1], bases := [rejInner] }
+    refine ⟨accCorral_inv, rfl, ?_⟩
+    intro b hb
+    have : b = rejInner := by simpa [rejTop] using hb
+    subst this
+    show (corralLaws (fun x => x) (towerLaws (fun x => x) 0)).inv { c := accCorral true [1], lastActs := [0], lastProbs := [1], bases := [rejLeaf] }
+    refine ⟨accCorral_inv, rfl, ?_⟩
+    intro b hb
+    have : b = rejLeaf := List.mem_singleton.mp hb
+    subst this
+    show rejLeaf.L.kind.Inv
+    simp [rejLeaf, Kind.Inv]
+  · show (corralLaws (fun x => x) (towerLaws (fun x => x) 1)).ready { c := accCorral true [1], lastActs := [0], lastProbs := [1], bases := [rejInner] }
+    refine ⟨rfl, ?_⟩
+    intro b hb
+    have : b = rejInner := by simpa [rejTop] using hb
+    subst this
+    show (corralLaws (fun x => x) (towerLaws (fun x => x) 0)).ready { c := accCorral true [1], lastActs := [0], lastProbs := [1], bases := [rejLeaf] }
+    refine ⟨rfl, ?_⟩
+    intro b hb
+    trivial
+/-! ### Phase 6: a string action is never merged with the action whose text it is -/
+
+/-- a string action shares a table entry with exactly the identical string: never with a number, a dense or a sparse action whose text it is -/
+theorem str_key_same_iff' (s : String) (x : PyAct) :
+    Key.same (makeHashable (.scalar (.str s))) (makeHashable x) = true ↔ x = .scalar (.str s) := by
+  cases x with
+  | scalar c =>
+    cases c with
+    | num q => simp [makeHashable, Key.same]
+    | str t => simp [makeHashable, Key.same]; exact eq_comm
+  | dense f xs => simp [makeHashable, Key.same]
+  | sparse f kv => simp [makeHashable, Key.same]
+
+theorem str_py_eq_iff' (s : String) (x : PyAct) :
+    pyEq (.scalar (.str s)) x = true ↔ x = .scalar (.str s) := by
+  cases x with
+  | scalar c =>
+    cases c with
+    | num q => simp [pyEq]
+    | str t => simp [pyEq]; exact eq_comm
+  | dense f xs => simp [pyEq]
+  | sparse f kv => simp [pyEq]
 end Coba.C16
